@@ -67,6 +67,11 @@ def generate(R, tier):
                      "size": R.choice(SIZES) if R.random() < 0.6 else R.randint(1, 12),
                      "policy": R.choice(["replace", "replace", "merge", "subsample", "inplace-cull", "inplace-merge"]), "s": R.randrange(1 << 30)})
     mode = R.choice(["pass", "pass", "pass", "low", "high"])
+    if R.random() < 0.004:
+        # a very large family next to single individuals: alleles carried by one individual in > 100 000
+        gens[0].update(huge=R.choice([60000, 131072]), policy="replace", prot=R.choice(["2w", "2wdh", "self"]), nself=0)
+        nv = R.choice([1, 2, 3])
+        nchr = 1
     return {"world": {"seed": R.randrange(1 << 30), "ntaxa": R.choice(SIZES) if R.random() < 0.5 else R.randint(1, 10), "nvrnt": nv, "nchr": nchr,
                       "ntrait": R.randint(1, 3), "freq": R.choice([0.5, 0.5, 0.2, 0.9]), "nfixed": R.choice([1, 1, 2, 4])},
             "rng": {"kind": R.choice(["Generator", "RandomState"]), "seed": R.randrange(1 << 30), "umode": mode,
@@ -322,8 +327,15 @@ def execute(sc):
         mp = prots.get(st["prot"])
         if mp is None:
             mp = prots[st["prot"]] = cls(progeny_counter=0, family_counter=0, rng=g)
+        nprog = 1
+        if st.get("huge"):
+            xc = xc[:min(len(xc), 3)]
+            if len(xc) < 2:
+                xc = numpy.concatenate([xc, xc], axis=0)
+            nprog = numpy.array([int(st["huge"])] + [1] * (len(xc) - 1), dtype=int)
+            faults["one_family_of_more_than_50000"] = faults.get("one_family_of_more_than_50000", 0) + 1
         try:
-            prog = mp.mate(pop, xc, 1, 1, nself=st["nself"])
+            prog = mp.mate(pop, xc, 1, nprog, nself=st["nself"])
         except Exception as e:
             V.append(viol("mating-completes", cls.__name__ + ".mate", "raises:%s" % type(e).__name__, "generation %d: %s: %s" % (ix, type(e).__name__, e), step=ix))
             break
